@@ -118,6 +118,42 @@ def raw_selectors():
     return out
 
 
+PARSED_MARKUP = ('<div id="d"><script id="sc">var x</script><style id="st">p{}</style><template id="tp">tmpl<b>in</b></template><ruby id="rb">k<rt id="rt">ruby</rt><rp id="rp">(</rp></ruby>'
+                 '<textarea id="ta">area</textarea><title id="ti">ttl</title><p id="e1"><!--c--></p><p id="e2"> \n</p><p id="cd"><![CDATA[cdat]]></p><noscript id="ns">nos</noscript>'
+                 '<pre id="pr">\n pre</pre><p id="pi"><?pi x?></p></div>')
+
+
+def run_parsed(sv, res):
+    """Trees from the real parsers, which store the text of script / style / template / ruby annotations in subclasses of NavigableString: those
+    are text nodes like any other (only comments, CDATA, processing instructions, declarations and doctypes are not)."""
+    import bs4
+    cont = lambda own, texts: ('contains', own, tuple(texts), None)
+    needles = ['var', 'p{}', 'tmpl', 'in', 'ruby', '(', 'area', 'ttl', 'k', 'c', 'cdat', 'nos', 'pre', 'pi', 'x']
+    sels = [((S.cx(S.cp(None, cont(own, (t,)))),), None) for t in needles for own in (False, True)]
+    sels += [((S.cx(S.cp(None, ('pc', 'empty'))),), None), ((S.cx(S.cp(None, ('fn', 'not', (S.cx(S.cp(None, ('pc', 'empty'))),)))),), None),
+             ((S.cx(S.cp(S.T('div'), cont(False, ('var', 'zz')))),), None), ((S.cx(S.cp(None, cont(False, ('rubyk', 'kruby', 'kruby(')))),), None)]
+    for parser in ('html.parser', 'lxml', 'html5lib'):
+        with warnings.catch_warnings():
+            warnings.simplefilter('ignore')
+            soup = bs4.BeautifulSoup(PARSED_MARKUP, parser)
+        ctx = R.Ctx(soup)
+        for lst, _ in sels:
+            text = S.render(lst)
+            r = _sel.run_case(sv, soup, lst, ctx=ctx, text=text)
+            res.evaluations += 1
+            if r['status'] == 'ok':
+                res.outcome('agree')
+                res.nontrivial += 1 if r['want'] else 0
+            elif r['status'] == 'unspecified':
+                res.unspecified += 1
+            else:
+                kinds = sorted({type(n).__name__ for n in soup.descendants if isinstance(n, bs4.element.NavigableString)} - {'NavigableString'})
+                res.fail({'parsed': parser, 'selector': lst, 'text': text, 'subject': None, 'xml': False},
+                         {'kind': r['status'], 'direction': r.get('direction', r.get('exc', '')), 'xml': False,
+                          'selector': '+'.join(sorted(a for a in _sel.atoms_of(lst) if a.startswith(':'))), 'nodes': 'parsed:' + parser},
+                         f'[{parser}; string classes in the tree: {kinds}] ' + r.get('detail', ''))
+
+
 def shards(tier, seed):
     n = 48 if tier == 'quick' else 160
     return [(tier, i, n) for i in range(n)]
@@ -147,6 +183,7 @@ def run_shard(desc):
     if i == 0:
         res.count('subjects', len(subs))
         res.count('selectors', len(sels))
+        run_parsed(sv, res)
     B = 30
     batches = [subs[k:k + B] for k in range(0, len(subs), B)]
     for bi in range(i, len(batches), n):
@@ -193,8 +230,13 @@ def replay(case):
     from .. import common
     sv = common.bind()
     warnings.simplefilter('ignore')
-    spec = _sel.tup(case['subject'])
     lst = _sel.tup(case['selector'])
+    if case.get('parsed'):
+        import bs4
+        soup = bs4.BeautifulSoup(PARSED_MARKUP, case['parsed'])
+        r = _sel.run_case(sv, soup, lst, text=case['text'])
+        return None if r['status'] in ('ok', 'unspecified') else ({'kind': r['status'], 'direction': r.get('direction', '')}, r.get('detail', ''))
+    spec = _sel.tup(case['subject'])
     soup = T.build_api((('e', 'div', (), (spec,)),) if spec[1] == 'p' else (spec,), case['xml'])
     r = _sel.run_case(sv, soup, lst, text=case['text'])
     if r['status'] in ('ok', 'unspecified'):
